@@ -9,6 +9,7 @@ import EaselModel.Miniapps.ReformatMsa
 import EaselModel.Miniapps.Alimask
 import EaselModel.Miniapps.Alimanip
 import EaselModel.Miniapps.Afetch
+import EaselModel.Miniapps.AlistatInfo
 /-! # C13 — command-line front end of the reference functions: `runTool tool argv files` = predicted stdout -/
 namespace EaselModel.Miniapps
 
@@ -211,6 +212,28 @@ def runReformat (argv : List String) (files : String → Option (List Char)) : O
     match runReformatMsa p infmt outfmt (← files fn) with
     | some out => return out
     | none => pure ()
+  if outfmt == "fasta" && msaFormats.contains infmt then
+    -- unaligned output from an alignment file (sequence branch of the tool over the C03 readers and C15's FetchFromMSA)
+    if p.has "--keeprf" && !p.has "--mingap" then none
+    match p.val? "--gapsym" with
+    | some v => if v.length != 1 then none
+    | none => pure ()
+    let repl ← match p.val? "--replace" with
+      | some v =>
+        let cs := v.toList
+        let mid := cs.length / 2
+        if cs.length % 2 = 1 && cs.getD mid ' ' = ':' then some (some (c2b (cs.take mid), c2b (cs.drop (mid + 1)))) else none
+      | none => some none
+    match p.val? "--namelen" with
+    | some v => (match v.toNat? with | some n => if n > 0 && n < 2 ^ 31 then pure () else none | none => none)
+    | none => pure ()
+    let nw := (if p.has "--wussify" then 1 else 0) + (if p.has "--dewuss" then 1 else 0) + (if p.has "--fullwuss" then 1 else 0)
+    if nw > 1 then none
+    let o : Ali.Opts :=
+      { replace := repl, lower := p.has "-l", upper := p.has "-u", rna := p.has "-r", dna := p.has "-d", iupacN := p.has "-n", xbad := p.has "-x",
+        rename := (p.val? "--rename").map fun s => c2b s.toList,
+        wussify := p.has "--wussify", dewuss := p.has "--dewuss", fullwuss := p.has "--fullwuss" }
+    return ← (Ali.reformatMsaToFasta o infmt (c2b (← files fn))).map b2s
   if p.has "--keeprf" || p.has "--wussify" || p.has "--dewuss" || p.has "--fullwuss" || (p.val? "--namelen").isSome then none
   let gapsym ← match p.val? "--gapsym" with
     | some v => (match v.toList with | [c] => some (some c) | _ => none)
@@ -652,6 +675,25 @@ def runAfetchFull (argv : List String) (files : String → Option (List Char)) :
       | none, false => some (b2s out, [])
       | _, _ => none
 
+/-- esl-alistat [-1] [--list f] [--icinfo f] [--rinfo f] [--iinfo f] [--cinfo f [--noambig]] --informat (stockholm|pfam) (--dna|--rna|--amino) <msafile>:
+    digital-mode Stockholm input, summary on stdout, the optional output files -/
+def runAlistatFull (argv : List String) (files : String → Option (List Char)) : Option (String × List (String × List Char)) := do
+  let p ← parseArgs ["--dna", "--rna", "--amino", "-1", "--noambig"] ["--informat", "--list", "--icinfo", "--rinfo", "--iinfo", "--cinfo"] argv {}
+  let infmt ← p.val? "--informat"
+  if infmt != "stockholm" && infmt != "pfam" then (runAlistat argv files).map fun o => (o, []) else
+  let V ← match p.has "--dna", p.has "--rna", p.has "--amino" with
+    | true, false, false => some Ali.viewsDna
+    | false, true, false => some Ali.viewsRna
+    | false, false, true => some Ali.viewsAmino
+    | _, _, _ => none
+  let [fn] := p.pos | none
+  let outs := ["--list", "--icinfo", "--rinfo", "--iinfo", "--cinfo"].filterMap p.val?
+  if outs.eraseDups.length != outs.length || outs.contains fn then none      -- two streams on one file: not defined by the reference
+  let o : Ali.AlistatOpts := { oneLine := p.has "-1", noAmbig := p.has "--noambig", list := p.val? "--list", icinfo := p.val? "--icinfo",
+                               rinfo := p.val? "--rinfo", iinfo := p.val? "--iinfo", cinfo := p.val? "--cinfo" }
+  let (out, written) ← Ali.alistatInfo V o infmt fn (c2b (← files fn))
+  some (out, written.map fun (f, t) => (f, t.toList))
+
 def runSfetch (argv : List String) (files : String → Option (List Char)) : Option String :=
   (runSfetchFull argv files).map (·.1)
 
@@ -685,6 +727,7 @@ def runToolFull (tool : String) (argv : List String) (files : String → Option 
   if tool == "esl-sfetch" then runSfetchFull argv files
   else if tool == "esl-alimask" then runAlimaskFull argv files
   else if tool == "esl-afetch" then runAfetchFull argv files
+  else if tool == "esl-alistat" then runAlistatFull argv files
   else if ["esl-shuffle", "esl-reformat", "esl-mask", "esl-weight", "esl-alimanip"].contains tool then
     match splitO argv [] with
     | some (f, rest) => (runToolCore tool rest files).map fun out => ("", [(f, out.toList)])
